@@ -547,7 +547,16 @@ class Case:
             elif op == "Reset":
                 self.env.D.reset()
             elif op == "Copy":
-                self.obj[tgt] = self.obj[d["src"]].copy()
+                if n == "style_copy":
+                    # second realisation of the abstract step: a NEW object of the class is given a copy of the style OBJECT of the source
+                    # (style.copy() is public API); from then on the two styles are independent like those of o and o.copy()
+                    # (the style setter takes dictionaries only - a style object assigned to it is accepted and ignored -, so the harness
+                    # HOLDS the copied style object in a new object of the class; all later assignments go through the public notations)
+                    new_obj = self.env.make(self.clsof.get(d["src"], self.cls))
+                    new_obj._style = self.obj[d["src"]].style.copy()            # pylint: disable=protected-access
+                    self.obj[tgt] = new_obj
+                else:
+                    self.obj[tgt] = self.obj[d["src"]].copy()
             elif op == "Show":
                 kwabs["l"] = v
                 V = self.real(v, "l")
@@ -888,6 +897,17 @@ def sequences(cls, leaf, tier_, idx=0):
                     else:
                         seq.append(K(r.choice(["k", "k2", "k3"]), {"l": val}, r.choice(["kids_us", "kids_dict"]), r.random() < 0.5, res=["o", "w", "x"]))
             out.append((f"random:{h}", seq))
+    # every history with a Copy step is also run with the other realisation of Copy (new object + style.copy())
+    import copy as _copy
+    twins = []
+    for name, seq in out:
+        if any(isinstance(d_, dict) and d_.get("op") == "Copy" for d_ in seq) and not name.startswith("kids"):
+            seq2 = _copy.deepcopy(seq)
+            for d_ in seq2:
+                if d_.get("op") == "Copy":
+                    d_["n"] = "style_copy"
+            twins.append((name + ":stylecopy", seq2))
+    out += twins
     return out
 
 
